@@ -70,10 +70,10 @@ pub fn check(id: &'static str) -> Check {
 
 fn total_cases(f: Focus, t: Tier) -> u64 {
     match f {
-        Focus::C02 => t.pick(12_000, 240_000),
-        Focus::C05 => t.pick(15_000, 300_000),
-        Focus::C12 => t.pick(8_000, 160_000),
-        Focus::C13 => t.pick(20_000, 400_000),
+        Focus::C02 => t.pick(8_000, 240_000),
+        Focus::C05 => t.pick(12_000, 300_000),
+        Focus::C12 => t.pick(6_000, 160_000),
+        Focus::C13 => t.pick(15_000, 400_000),
         Focus::C19 => t.pick(20_000, 400_000),
     }
 }
